@@ -362,7 +362,7 @@ func TestVerif_C09(t *testing.T) {
 	rep.Assumptions = []string{"verifkit.Store (copy-on-read/write in-memory storage) stands for the storage back end; both delete-missing behaviours are run", "headers need not carry proof of work"}
 	defer rep.Write()
 
-	n := verifkit.N(320, 20000)
+	n := verifkit.N(320, 8000)
 	for ci := 0; ci < n; ci++ {
 		if !verifkit.Mine(ci) {
 			continue
